@@ -1027,6 +1027,13 @@ func (vc *VC) callAsserts(fr *Frame, st *State, c *ssa.CallCommon, args []Term, 
 		}
 		env := vc.newEnv(scope, st, scope.entry)
 		env.at = scope.curBlock
+		if vc.cbIndexCur != nil {
+			// inside the body of an iterator callback: the number of calls completed before this one, and its arguments
+			env.names["cbindex"] = Bound{*vc.cbIndexCur, types.Typ[types.Int]}
+			for k, b := range vc.cbArgsCur {
+				env.names[k] = b
+			}
+		}
 		off := 0
 		if recv != nil && !c.IsInvoke() {
 			env.names["recv"] = Bound{args[0], recv.Type()}
@@ -1189,8 +1196,15 @@ func (vc *VC) iterateCallback(fr *Frame, st *State, instr *ssa.Call, c *ssa.Call
 			}
 		}
 	}
+	// cbindex: the number of calls of the callback completed so far (0 before the first; an arbitrary K >= 0 where the
+	// invariant is assumed; K+1 after the one execution of the body that is verified)
+	intT := types.Typ[types.Int]
+	cbK := vc.q.Fresh(fr.prefix+"$cbindex", SInt)
+	vc.q.Assert(Ge(cbK, IntLit(0)))
+	cbIndex := IntLit(0)
 	evalInv := func(s *State, ci *CallAssert) Term {
 		env := vc.newEnv(fr, s, fr.entry)
+		env.names["cbindex"] = Bound{cbIndex, intT}
 		env.at = fr.curBlock
 		vc.sameBlockOK = true
 		defer func() { vc.sameBlockOK = false }()
@@ -1237,6 +1251,7 @@ func (vc *VC) iterateCallback(fr *Frame, st *State, instr *ssa.Call, c *ssa.Call
 	vc.q.Assert(Ge(na, st.alloc))
 	st.alloc = na
 	// 3. assume the invariant
+	cbIndex = cbK
 	for _, ci := range invs {
 		vc.q.Assert(Implies(st.reach, evalInv(st, ci)))
 	}
@@ -1255,6 +1270,12 @@ func (vc *VC) iterateCallback(fr *Frame, st *State, instr *ssa.Call, c *ssa.Call
 		cbArgs = append(cbArgs, a)
 		envY.names[fmt.Sprintf("cb%d", i)] = Bound{a, pt}
 	}
+	envY.names["cbindex"] = Bound{cbK, intT}
+	if c.IsInvoke() {
+		envY.names["recv"] = Bound{vc.val(fr, c.Value), c.Value.Type()}
+	} else if sig.Recv() != nil && len(c.Args) == sig.Params().Len()+1 {
+		envY.names["recv"] = Bound{vc.val(fr, c.Args[0]), c.Args[0].Type()}
+	}
 	for _, y := range con.Yields {
 		func() {
 			defer func() {
@@ -1269,11 +1290,20 @@ func (vc *VC) iterateCallback(fr *Frame, st *State, instr *ssa.Call, c *ssa.Call
 			vc.q.Assert(Implies(it.reach, vc.specBool(envY, y)))
 		}()
 	}
+	prevIdx, prevArgs := vc.cbIndexCur, vc.cbArgsCur
+	vc.cbIndexCur = &cbK
+	vc.cbArgsCur = map[string]Bound{}
+	for i := range cbArgs {
+		vc.cbArgsCur[fmt.Sprintf("cb%d", i)] = Bound{cbArgs[i], cbSig.Params().At(i).Type()}
+	}
 	vc.inline(fr, it, cbFn, mc, cbArgs, pos)
+	vc.cbIndexCur, vc.cbArgsCur = prevIdx, prevArgs
+	cbIndex = Add(cbK, IntLit(1))
 	for _, ci := range invs {
 		vc.addObl(fr, it, "cb-inv-preserved", calleeName+"/"+ci.Clause.Label, evalInv(it, ci), ci.Clause, pos)
 	}
-	// 5. after the call: any number of executions happened
+	// 5. after the call: any number of executions happened (cbK of them: the invariant was assumed for cbK above)
+	cbIndex = cbK
 	rs := vc.freshResults(fr, st, sig, "ret_"+calleeName)
 	vc.assumeWF(st, rs, sig)
 	vc.setResults(fr, instr, rs)
